@@ -11,24 +11,51 @@ from the generated `Gen.TableProf.placeholderCount / placeholderMissing`).
 namespace Distogram
 set_option linter.unusedSectionVars false
 open Gen.ProfileEst (addDropsCache addCount addMissing)
-open Gen.TableProf (placeholderCount placeholderMissing sumLeftFirst)
+open Gen.TableProf (placeholderCount placeholderMissing leftPlaceholderCount leftPlaceholderMissing sumLeftFirst keepsRightOnly
+  rightOnlyLeftFirst)
 
 variable {K : Type} [Field K] [LinearOrder K] [IsStrictOrderedRing K]
 
-/-- What the table theorems need of the source: the stand-in for a column the right table lacks reports as many missing
-values as rows, whatever the row counts of the two tables. -/
+/-- What the table theorems need of the source: a stand-in — for a column the right table lacks, and for one the left table
+lacks — reports as many missing values as rows, whatever the present column and the row counts of the two tables are. -/
 def PlaceholderEmpty (K : Type) [Field K] : Prop :=
-  ∀ lc lm rr : K, placeholderCount lc lm rr - placeholderMissing lc lm rr = 0
+  ∀ c m lr rr : K, placeholderCount c m lr rr - placeholderMissing c m lr rr = 0 ∧
+    leftPlaceholderCount c m lr rr - leftPlaceholderMissing c m lr rr = 0
 
 /-- The number of non-null values a profile stands for. -/
 def EProf.nonNull (p : EProf K) : K := p.count - p.missing
 
-theorem placeholder_profOK (hp : PlaceholderEmpty K) (l : EProf K) (rr : K) :
-    ProfOK (placeholder l rr) ∧ (placeholder l rr).cache = none ∧ (placeholder l rr).nonNull = 0 := by
+theorem placeholder_profOK (hp : PlaceholderEmpty K) (l : EProf K) (lr rr : K) :
+    ProfOK (placeholder l lr rr) ∧ (placeholder l lr rr).cache = none ∧ (placeholder l lr rr).nonNull = 0 := by
   refine ⟨⟨List.Pairwise.nil, by intro x hx; simp [placeholder] at hx, by simp [placeholder], ?_, fun h => absurd rfl h⟩, rfl, ?_⟩
   · show mass ([] : List (K × K)) = _
-    rw [mass_nil]; exact (hp l.count l.missing rr).symm
-  · exact hp l.count l.missing rr
+    rw [mass_nil]; exact (hp l.count l.missing lr rr).1.symm
+  · exact (hp l.count l.missing lr rr).1
+
+theorem placeholderL_profOK (hp : PlaceholderEmpty K) (r : EProf K) (lr rr : K) :
+    ProfOK (placeholderL r lr rr) ∧ (placeholderL r lr rr).cache = none ∧ (placeholderL r lr rr).nonNull = 0 := by
+  refine ⟨⟨List.Pairwise.nil, by intro x hx; simp [placeholderL] at hx, by simp [placeholderL], ?_, fun h => absurd rfl h⟩, rfl, ?_⟩
+  · show mass ([] : List (K × K)) = _
+    rw [mass_nil]; exact (hp r.count r.missing lr rr).2.symm
+  · exact (hp r.count r.missing lr rr).2
+
+/-- A name the table does not list has no column. -/
+theorem column_none_of_not_mem {t : TProf K} {n : String} (h : t.names.contains n = false) : t.column n = none := by
+  unfold TProf.column
+  cases hf : t.cols.find? (fun c => c.1 == n) with
+  | none => rfl
+  | some c =>
+    exfalso
+    have hm := List.mem_of_find?_eq_some hf
+    have hp := List.find?_some hf
+    simp only [beq_iff_eq] at hp
+    have : n ∈ t.names := by
+      unfold TProf.names
+      rw [← hp]
+      exact List.mem_map_of_mem hm
+    have h2 : t.names.contains n = true := by simpa using this
+    rw [h] at h2
+    exact Bool.noConfusion h2
 
 theorem column_mem {t : TProf K} {n : String} {l : EProf K} (h : t.column n = some l) : (n, l) ∈ t.cols := by
   unfold TProf.column at h
@@ -55,7 +82,7 @@ column of it is the column sum of the left table's column and the right table's 
 theorem addColumns_spec (add : EProf K → EProf K → Except String (EProf K)) (a b : TProf K) :
     ∀ (ns : List String) (cs : List (String × EProf K)), addColumns add a b ns = .ok cs →
       cs.map (·.1) = ns ∧
-      ∀ c ∈ cs, ∃ l r, a.column c.1 = some l ∧ r = (b.column c.1).getD (placeholder l b.rows) ∧
+      ∀ c ∈ cs, ∃ l r, a.column c.1 = some l ∧ r = (b.column c.1).getD (placeholder l a.rows b.rows) ∧
         (if sumLeftFirst then add l r else add r l) = .ok c.2
   | [], cs, h => by
     simp only [addColumns, Except.ok.injEq] at h
@@ -68,8 +95,8 @@ theorem addColumns_spec (add : EProf K → EProf K → Except String (EProf K)) 
     | some l =>
       rw [hl] at h
       simp only at h
-      cases hs : (if sumLeftFirst then add l ((b.column n).getD (placeholder l b.rows))
-          else add ((b.column n).getD (placeholder l b.rows)) l) with
+      cases hs : (if sumLeftFirst then add l ((b.column n).getD (placeholder l a.rows b.rows))
+          else add ((b.column n).getD (placeholder l a.rows b.rows)) l) with
       | error e => rw [hs] at h; simp at h
       | ok s =>
         rw [hs] at h
@@ -87,15 +114,86 @@ theorem addColumns_spec (add : EProf K → EProf K → Except String (EProf K)) 
           · exact ⟨l, _, hl, rfl, hs⟩
           · exact hc c hc'
 
+/-- One run of the second loop over names `ns` of the right table: the names the left table lacks, in order; each column is the
+column sum of the stand-in for the left side and the right table's column. -/
+theorem addRightOnly_spec (add : EProf K → EProf K → Except String (EProf K)) (a b : TProf K) :
+    ∀ (ns : List String) (cs : List (String × EProf K)), addRightOnly add a b ns = .ok cs →
+      cs.map (·.1) = ns.filter (fun n => !a.names.contains n) ∧
+      ∀ c ∈ cs, ∃ r, a.column c.1 = none ∧ b.column c.1 = some r ∧
+        (if rightOnlyLeftFirst then add (placeholderL r a.rows b.rows) r else add r (placeholderL r a.rows b.rows)) = .ok c.2
+  | [], cs, h => by
+    simp only [addRightOnly, Except.ok.injEq] at h
+    subst h
+    exact ⟨rfl, by intro c hc; simp at hc⟩
+  | n :: rest, cs, h => by
+    unfold addRightOnly at h
+    by_cases hm : a.names.contains n = true
+    · rw [if_pos hm] at h
+      obtain ⟨hn, hc⟩ := addRightOnly_spec add a b rest cs h
+      refine ⟨?_, hc⟩
+      rw [hn, List.filter_cons, hm]
+      rfl
+    · rw [if_neg hm] at h
+      have hm' : a.names.contains n = false := by simpa using hm
+      cases hr : b.column n with
+      | none => rw [hr] at h; simp at h
+      | some r =>
+        rw [hr] at h
+        simp only at h
+        cases hs : (if rightOnlyLeftFirst then add (placeholderL r a.rows b.rows) r else add r (placeholderL r a.rows b.rows)) with
+        | error e => rw [hs] at h; simp at h
+        | ok s =>
+          rw [hs] at h
+          simp only at h
+          cases ht : addRightOnly add a b rest with
+          | error e => rw [ht] at h; simp at h
+          | ok t =>
+            rw [ht] at h
+            simp only [Except.ok.injEq] at h
+            subst h
+            obtain ⟨hn, hc⟩ := addRightOnly_spec add a b rest t ht
+            refine ⟨?_, ?_⟩
+            · rw [List.filter_cons, hm']
+              simp only [Bool.not_false, if_true, List.map_cons, hn]
+            · intro c hc'
+              rcases List.mem_cons.mp hc' with rfl | hc'
+              · exact ⟨r, column_none_of_not_mem hm', hr, hs⟩
+              · exact hc c hc'
+
+/-- A table sum is the result of the first loop followed by the result of the second (when the source has it). -/
 theorem tAddWith_ok {add : EProf K → EProf K → Except String (EProf K)} {a b s : TProf K}
-    (h : TProf.addWith add a b = .ok s) : addColumns add a b (a.cols.map (·.1)) = .ok s.cols := by
+    (h : TProf.addWith add a b = .ok s) :
+    ∃ cs ds, addColumns add a b a.names = .ok cs ∧
+      (if keepsRightOnly then addRightOnly add a b b.names else .ok []) = .ok ds ∧ s.cols = cs ++ ds := by
   unfold TProf.addWith at h
-  cases hc : addColumns add a b (a.cols.map (·.1)) with
+  cases hc : addColumns add a b a.names with
   | error e => rw [hc] at h; simp at h
   | ok cs =>
     rw [hc] at h
+    simp only at h
+    cases hd : (if keepsRightOnly then addRightOnly add a b b.names else .ok []) with
+    | error e => rw [hd] at h; simp at h
+    | ok ds =>
+      rw [hd] at h
+      simp only [Except.ok.injEq] at h
+      subst h
+      exact ⟨cs, ds, rfl, rfl, rfl⟩
+
+/-- The second loop's columns, whether the source has the loop or not. -/
+theorem rightOnly_cols {add : EProf K → EProf K → Except String (EProf K)} {a b : TProf K} {ds : List (String × EProf K)}
+    (h : (if keepsRightOnly then addRightOnly add a b b.names else .ok []) = .ok ds) :
+    ds.map (·.1) = (if keepsRightOnly then b.names.filter (fun n => !a.names.contains n) else []) ∧
+    ∀ c ∈ ds, ∃ r, a.column c.1 = none ∧ b.column c.1 = some r ∧
+      (if rightOnlyLeftFirst then add (placeholderL r a.rows b.rows) r else add r (placeholderL r a.rows b.rows)) = .ok c.2 := by
+  by_cases k : keepsRightOnly = true
+  · rw [if_pos k] at h
+    rw [if_pos k]
+    exact addRightOnly_spec add a b _ _ h
+  · rw [if_neg k] at h
+    rw [if_neg k]
     simp only [Except.ok.injEq] at h
-    subst h; rfl
+    subst h
+    exact ⟨rfl, by intro c hc; simp at hc⟩
 
 /-- Table profiles reachable from freshly built ones (every column well formed, nothing estimated yet) by estimating on a
 column and by adding tables. -/
@@ -127,22 +225,33 @@ theorem treach_cols (hp : PlaceholderEmpty K) {t : TProf K} (h : TReach t) :
   | touch n _ ih => exact touchFirst_reach n _ ih
   | @add a b s _ _ hadd iha ihb =>
     intro c hc
-    obtain ⟨_, hcs⟩ := addColumns_spec EProf.addRef a b _ _ (tAddWith_ok hadd)
-    obtain ⟨l, r, hl, hr, hsum⟩ := hcs c hc
-    have hlr : Reach refMerge ProfOK l := iha _ (column_mem hl)
-    have hrr : Reach refMerge ProfOK r := by
-      cases hb : b.column c.1 with
-      | none =>
-        rw [hb] at hr; simp only [Option.getD_none] at hr
-        subst hr
-        obtain ⟨ok, hc0, _⟩ := placeholder_profOK hp l b.rows
-        exact Reach.base ok hc0
-      | some r' =>
-        rw [hb] at hr; simp only [Option.getD_some] at hr
-        subst hr
-        exact ihb _ (column_mem hb)
-    by_cases lf : sumLeftFirst = true
-    · rw [if_pos lf] at hsum; exact Reach.add hlr hrr hsum
-    · rw [if_neg lf] at hsum; exact Reach.add hrr hlr hsum
+    obtain ⟨cs, ds, h1, h2, hs⟩ := tAddWith_ok hadd
+    rw [hs] at hc
+    rcases List.mem_append.mp hc with hc | hc
+    · obtain ⟨_, hcs⟩ := addColumns_spec EProf.addRef a b _ _ h1
+      obtain ⟨l, r, hl, hr, hsum⟩ := hcs c hc
+      have hlr : Reach refMerge ProfOK l := iha _ (column_mem hl)
+      have hrr : Reach refMerge ProfOK r := by
+        cases hb : b.column c.1 with
+        | none =>
+          rw [hb] at hr; simp only [Option.getD_none] at hr
+          subst hr
+          obtain ⟨ok, hc0, _⟩ := placeholder_profOK hp l a.rows b.rows
+          exact Reach.base ok hc0
+        | some r' =>
+          rw [hb] at hr; simp only [Option.getD_some] at hr
+          subst hr
+          exact ihb _ (column_mem hb)
+      by_cases lf : sumLeftFirst = true
+      · rw [if_pos lf] at hsum; exact Reach.add hlr hrr hsum
+      · rw [if_neg lf] at hsum; exact Reach.add hrr hlr hsum
+    · obtain ⟨_, hds⟩ := rightOnly_cols h2
+      obtain ⟨r, _, hr, hsum⟩ := hds c hc
+      have hrr : Reach refMerge ProfOK r := ihb _ (column_mem hr)
+      obtain ⟨ok, hc0, _⟩ := placeholderL_profOK hp r a.rows b.rows
+      have hlr : Reach refMerge ProfOK (placeholderL r a.rows b.rows) := Reach.base ok hc0
+      by_cases lf : rightOnlyLeftFirst = true
+      · rw [if_pos lf] at hsum; exact Reach.add hlr hrr hsum
+      · rw [if_neg lf] at hsum; exact Reach.add hrr hlr hsum
 
 end Distogram
